@@ -168,7 +168,11 @@ fn must_quote(s: &[u8]) -> bool {
     // number overapproximation: optional sign, then a digit or a dot (.5, .inf, .nan)
     let is_pos_num = |s: &[u8]| s.first().is_some_and(|c| c.is_ascii_digit() || *c == b'.');
     let is_num = |s: &[u8]| {
-        is_pos_num(s.strip_prefix(b"-").or_else(|| s.strip_prefix(b"+")).unwrap_or(s))
+        is_pos_num(
+            s.strip_prefix(b"-")
+                .or_else(|| s.strip_prefix(b"+"))
+                .unwrap_or(s),
+        )
     };
 
     s == b"~"
